@@ -264,6 +264,7 @@ fn names_part(ctx: &Ctx) {
     ctx.set("named_trees", json!({"names": wanted, "subsets": subs.len(), "subsets_done": res.processed, "nodes_max": params.max_nodes, "histories": evals}));
     if !res.complete {
         ctx.set("exhaustive", json!(false));
+        ctx.push("caps", json!("wall or memory budget reached in the part `named trees`: see its done / total counters"));
     }
 }
 
@@ -328,5 +329,6 @@ fn families(ctx: &Ctx) {
     ctx.set("families", json!({"histories": histories.len(), "done": res.processed}));
     if !res.complete {
         ctx.set("exhaustive", json!(false));
+        ctx.push("caps", json!("wall or memory budget reached in the part `families`: see its done / total counters"));
     }
 }
